@@ -159,12 +159,26 @@ Proof.
     destruct (cdata ev); intros E; inversion E; subst; clear E; try apply Hloc; now repeat split.
 Qed.
 
+Lemma parse_first_request_rem c ev s s1 :
+  parse_first_request c ev s = (s1, Some false) -> req_rem (req ev) <> [] -> req_complete s1 = true.
+Proof.
+  unfold parse_first_request, req_rem.
+  destruct (req ev) as [|pieces|tunnel rebuilt rem|pieces rem|]; intros E Hr; try congruence.
+  - destruct tunnel; inversion E; reflexivity.
+  - inversion E. rewrite client_queue_all_spec. reflexivity.
+Qed.
+
 Lemma inv_handle_data c ev s data s' r :
   inv c s -> handle_data c ev s data = (s', r) -> inv c s'.
 Proof.
   intros H. unfold handle_data. destruct (req_complete s) eqn:Er; cbn [negb].
   - now apply inv_on_client_data.
-  - now apply inv_parse_first_request.
+  - destruct (parse_first_request c ev s) as [s1 o] eqn:Ep.
+    pose proof (inv_parse_first_request _ _ _ _ _ H Er Ep) as I1.
+    destruct o as [[|]|]; try (intros E; inversion E; subst; exact I1).
+    destruct (req_rem (req ev)) as [|x rem] eqn:Erem; [intros E; inversion E; subst; exact I1|].
+    destruct (req_complete s1) eqn:Er1; [|intros E; inversion E; subst; exact I1].
+    destruct (plugin s1); [intros E; inversion E; subst; exact I1| |]; now apply inv_on_client_data.
 Qed.
 
 Lemma inv_base_handle_readables c ev s s' r :
@@ -306,9 +320,14 @@ Qed.
 
 Lemma frame_handle_data c ev s data s' r : handle_data c ev s data = (s', r) -> frame s s'.
 Proof.
-  unfold handle_data. destruct (negb (req_complete s)).
-  - apply frame_parse_first_request.
-  - apply frame_on_client_data.
+  unfold handle_data. destruct (negb (req_complete s)); [|apply frame_on_client_data].
+  destruct (parse_first_request c ev s) as [s1 o] eqn:Ep.
+  pose proof (frame_parse_first_request _ _ _ _ _ Ep) as F1.
+  destruct o as [[|]|]; try (intros E; inv_pair; exact F1).
+  destruct (req_rem (req ev)) as [|x rem]; [intros E; inv_pair; exact F1|].
+  destruct (req_complete s1); [|intros E; inv_pair; exact F1].
+  destruct (plugin s1); [intros E; inv_pair; exact F1| |]; intros E;
+    exact (frame_trans _ _ _ F1 (frame_on_client_data _ _ _ _ _ E)).
 Qed.
 
 Lemma frame_write_to_descriptors c ev s s' b : write_to_descriptors c ev s = (s', b) -> frame s s'.
@@ -825,9 +844,16 @@ Qed.
    ------------------------------------------------------------------------------------------ *)
 Definition recv_data (r : recv_res) : bytes := match r with RData b => b | _ => [] end.
 
+(* the client history grows by the whole piece recv() returned, or — in the call that completes the first
+   request — by the part of that piece that follows the request (req_rem) *)
+Definition cl_grows (ev : event) (s s' : hstate) : Prop :=
+  g_cl_rcvd s' = g_cl_rcvd s \/
+  (c_r ev = true /\ (g_cl_rcvd s' = g_cl_rcvd s ++ recv_data (c_recv ev) \/
+                     g_cl_rcvd s' = g_cl_rcvd s ++ req_rem (req ev))).
+
 Definition ghost_step (ev : event) (s s' : hstate) : Prop :=
   (g_up_rcvd s' = g_up_rcvd s \/ (u_r ev = true /\ g_up_rcvd s' = g_up_rcvd s ++ recv_data (u_recv ev))) /\
-  (g_cl_rcvd s' = g_cl_rcvd s \/ (c_r ev = true /\ g_cl_rcvd s' = g_cl_rcvd s ++ recv_data (c_recv ev))).
+  cl_grows ev s s'.
 
 Definition ghost_same (s s' : hstate) : Prop :=
   g_up_rcvd s' = g_up_rcvd s /\ g_cl_rcvd s' = g_cl_rcvd s.
@@ -837,11 +863,11 @@ Proof. intros [A B]. split; now left. Qed.
 
 Lemma ghost_step_trans ev s1 s2 s3 :
   ghost_same s1 s2 -> ghost_step ev s2 s3 -> ghost_step ev s1 s3.
-Proof. intros [A B] [C D]. unfold ghost_step. rewrite <- A, <- B. auto. Qed.
+Proof. intros [A B] [C D]. unfold ghost_step, cl_grows in *. rewrite <- A, <- B. auto. Qed.
 
 Lemma ghost_step_trans' ev s1 s2 s3 :
   ghost_step ev s1 s2 -> ghost_same s2 s3 -> ghost_step ev s1 s3.
-Proof. intros [C D] [A B]. unfold ghost_step. rewrite A, B. auto. Qed.
+Proof. intros [C D] [A B]. unfold ghost_step, cl_grows in *. rewrite A, B. auto. Qed.
 
 Ltac brk_all :=
   repeat (match goal with
@@ -864,23 +890,52 @@ Proof.
   unfold parse_first_request. intros E. brk_in E; inv_pair; rewrite ?client_queue_all_spec; now split.
 Qed.
 
-Lemma ghost_handle_readables c ev s s' r :
-  (u_r ev = true -> reads_teared s = false -> True) ->
-  handle_readables c ev s = (s', r) ->
-  g_up_rcvd s' = g_up_rcvd s /\
-  (g_cl_rcvd s' = g_cl_rcvd s \/ (c_r ev = true /\ g_cl_rcvd s' = g_cl_rcvd s ++ recv_data (c_recv ev))).
+Lemma ghost_on_client_data ev s raw s' r :
+  on_client_data ev s raw = (s', r) ->
+  g_up_rcvd s' = g_up_rcvd s /\ (g_cl_rcvd s' = g_cl_rcvd s \/ g_cl_rcvd s' = g_cl_rcvd s ++ raw).
 Proof.
-  intros _. unfold handle_readables. destruct (c_r ev) eqn:Ecr; [|intros E; inv_pair; split; auto].
+  unfold on_client_data. intros E.
+  brk_all; repeat inv_pair; rewrite ?client_queue_all_spec; hsimpl; split; auto.
+Qed.
+
+(* precise form at the handle_data boundary: whole piece once the first request is complete, only the
+   remainder in the call that completes it *)
+Lemma ghost_handle_data c ev s data s' r :
+  handle_data c ev s data = (s', r) ->
+  g_up_rcvd s' = g_up_rcvd s /\
+  (g_cl_rcvd s' = g_cl_rcvd s \/
+   (req_complete s = true /\ g_cl_rcvd s' = g_cl_rcvd s ++ data) \/
+   (req_complete s = false /\ g_cl_rcvd s' = g_cl_rcvd s ++ req_rem (req ev))).
+Proof.
+  unfold handle_data. destruct (req_complete s) eqn:Er; cbn [negb].
+  - intros E. destruct (ghost_on_client_data _ _ _ _ _ E) as [A [B|B]]; split; auto.
+  - destruct (parse_first_request c ev s) as [s1 o] eqn:Ep.
+    destruct (ghost_parse_first_request _ _ _ _ _ Ep) as [A B].
+    destruct o as [[|]|]; try (intros E; inv_pair; split; auto).
+    destruct (req_rem (req ev)) as [|x rem] eqn:Erem; [intros E; inv_pair; split; auto|].
+    destruct (req_complete s1); [|intros E; inv_pair; split; auto].
+    destruct (plugin s1); [intros E; inv_pair; split; auto| |]; intros E;
+      destruct (ghost_on_client_data _ _ _ _ _ E) as [A' [B'|B']]; (split; [congruence|]);
+      try (left; congruence); right; right; (split; [reflexivity|congruence]).
+Qed.
+
+Lemma ghost_handle_readables c ev s s' r :
+  handle_readables c ev s = (s', r) ->
+  g_up_rcvd s' = g_up_rcvd s /\ cl_grows ev s s'.
+Proof.
+  unfold handle_readables, cl_grows. destruct (c_r ev) eqn:Ecr; [|intros E; inv_pair; split; auto].
   unfold base_handle_readables. rewrite Ecr.
   destruct (c_recv ev) as [data| | | |] eqn:Erc; try (intros E; inv_pair; split; auto).
   destruct data as [|x data]; [intros E; inv_pair; split; auto|].
-  unfold handle_data. hsimpl.
-  destruct (negb (req_complete s)).
-  - destruct (parse_first_request c ev (note_client_io (now ev) (set_last_activity (now ev) s))) as [s1 o] eqn:Ep.
-    destruct (ghost_parse_first_request _ _ _ _ _ Ep) as [A B]. hsimpl.
-    intros E. brk_all; repeat inv_pair; hsimpl; split; auto.
-  - unfold on_client_data. hsimpl. intros E.
-    brk_all; repeat inv_pair; rewrite ?client_queue_all_spec; hsimpl; cbn [recv_data]; split; auto.
+  set (s0 := note_client_io (now ev) (set_last_activity (now ev) s)).
+  destruct (handle_data c ev s0 (x :: data)) as [s1 o] eqn:Eh.
+  destruct (ghost_handle_data _ _ _ _ _ _ Eh) as [A B].
+  assert (G : g_up_rcvd s1 = g_up_rcvd s /\
+              (g_cl_rcvd s1 = g_cl_rcvd s \/
+               true = true /\ (g_cl_rcvd s1 = g_cl_rcvd s ++ recv_data (RData (x :: data)) \/
+                               g_cl_rcvd s1 = g_cl_rcvd s ++ req_rem (req ev)))).
+  { split; [exact A|]. cbn [recv_data]. destruct B as [B|[[_ B]|[_ B]]]; auto. }
+  destruct o as [[|]|]; [destruct (has_buffer (work s1))| |]; intros E; inv_pair; hsimpl; exact G.
 Qed.
 
 Lemma ghost_read_from_descriptors c ev s s' r :
@@ -900,13 +955,13 @@ Lemma ghost_read_phase c ev s s' r : read_phase c ev s = (s', r) -> ghost_step e
 Proof.
   unfold read_phase. destruct (reads_teared s); [intros E; inv_pair; split; now left|].
   destruct (handle_readables c ev s) as [sx o] eqn:Eh.
-  destruct (ghost_handle_readables _ _ _ _ _ (fun _ _ => I) Eh) as [A B].
+  destruct (ghost_handle_readables _ _ _ _ _ Eh) as [A B].
   assert (Gx : ghost_step ev s sx) by (split; [now left|exact B]).
   destruct o as [[|]|]; try (intros E; inv_pair; exact Gx).
   destruct (plugin sx); try (intros E; inv_pair; exact Gx);
     destruct (read_from_descriptors c ev sx) as [sy o2] eqn:Er;
     destruct (ghost_read_from_descriptors _ _ _ _ _ Er) as [C D];
-    destruct o2; intros E; inv_pair; unfold ghost_step; hsimpl; rewrite A in D; rewrite C; (split; [exact D|exact B]).
+    destruct o2; intros E; inv_pair; unfold ghost_step, cl_grows in *; hsimpl; rewrite A in D; rewrite C; (split; [exact D|exact B]).
 Qed.
 
 Theorem ghost_handle_events c ev s s' r : handle_events c ev s = (s', r) -> ghost_step ev s s'.
@@ -1043,4 +1098,27 @@ Proof.
   destruct (threaded_flush_drains (max_send c) sel (work s) Heff Hlen) as [w' [E1 [E2 E3]]].
   rewrite E1. unfold close_upstream. hsimpl.
   destruct (upstream s); hsimpl; cbn [close closed buffer sent]; auto.
+Qed.
+
+(* ------------------------------------------------------------------------------------------
+   C01, e222aa4: CONNECT and tunnel payload in ONE segment — the bytes behind the request are queued
+   for the upstream in the very call that establishes the tunnel, exactly once
+   ------------------------------------------------------------------------------------------ *)
+Lemma connect_with_payload c ev s data rebuilt rem :
+  req_complete s = false -> req ev = RProxy true rebuilt rem ->
+  exists s', handle_data c ev s data = (s', Some false) /\
+    established s' /\ is_tunnel s' = true /\
+    delivered_upstream s' = [] /\ pending_upstream s' = rem /\
+    g_cl_rcvd s' = g_cl_rcvd s ++ rem /\
+    pending (work s') = pending (work s) ++ ack c.
+Proof.
+  intros Hrc Hreq. unfold handle_data, parse_first_request. rewrite Hrc, Hreq. cbn [negb req_rem].
+  destruct rem as [|x rem].
+  - eexists. split; [reflexivity|]. unfold established, delivered_upstream, pending_upstream; hsimpl.
+    repeat split; eauto. + now rewrite app_nil_r. + apply pending_queue.
+  - hsimpl. unfold on_client_data; hsimpl.
+    eexists. split; [reflexivity|]. unfold established, delivered_upstream, pending_upstream; hsimpl.
+    repeat split; eauto.
+    + unfold pending, queue, new_conn; cbn [buffer concat app]. now rewrite app_nil_r.
+    + apply pending_queue.
 Qed.
